@@ -619,3 +619,61 @@ class AllocAsFilelike:
         return (result._start_address == g_start and result._end_address == g_start + size
                 and result._offset == 0 and not result.closed and not result._freed
                 and result._x == x and result._y == y)
+
+
+# ---- sdram_alloc: the block a view is made over -----------------------------------------------------------------------------------------
+from pyvc.values import ListV as _L13, ObjV as _O13, NONE as _N13, TRec as _TRec13, TInt as _TInt13, TBool as _TBool13   # noqa: E402
+
+
+def _alloc_scp(E, obj, args, kwargs, st, node):
+    s = st.copy()
+    s.trace = _L13(s.trace.items + (("scp",) + tuple(args),))
+    return [(s, _O13("SCPPacket", {"arg1": st.env["g_address"]}), None)]
+
+
+def _alloc_fill(E, obj, args, kwargs, st, node):
+    s = st.copy()
+    s.trace = _L13(s.trace.items + (("fill",) + tuple(args),))
+    return [(s, _N13, None)]
+
+
+@contract("rig/machine_control/machine_controller.py::MachineController.sdram_alloc", variant="untagged")
+class SdramAlloc:
+    """one allocation request to the monitor of exactly the chip named, for exactly `size` bytes under the caller's application;
+    address 0 in the reply is a refusal (SpiNNakerMemoryError, nothing else sent); otherwise the address is returned as it is and,
+    when asked to clear, exactly [address, address + size) of that chip is filled with zeros - nothing more, nothing elsewhere"""
+    properties = ("C13",)
+    params = dict(self=_TRec13("MachineController"), size=_TInt13(0, 2 ** 27), tag=_TInt13(0, 0), x=_TInt13(0, 255), y=_TInt13(0, 255),
+                  app_id=_TInt13(0, 255), clear=_TBool13(), g_address=_TInt13(0, 2 ** 32 - 1))
+    externals = {"MachineController._send_scp": _alloc_scp, "MachineController.fill": _alloc_fill}
+    options = {"decorators": {"use_contextual_arguments": "identity"}, "int_class": "rig/machine_control/consts.py::SCPCommands"}
+    raises = {"SpiNNakerMemoryError": None}
+    assumptions = ["use_contextual_arguments as the identity (C18); _send_scp (MCSendScp) and fill (MCFill, C07) are recorded; untagged "
+                   "allocations (tag 0: the tagged failure path reads the tag table to word its message)"]
+
+    def native(x):
+        raise __import__("pyvc.replay", fromlist=["OutsideHarness"]).OutsideHarness()
+
+    def raises_SpiNNakerMemoryError(g_address, _trace):
+        return g_address == 0 and len(_trace) == 1
+
+    def ensures_asked_of_this_chip_for_this_size_and_cleared_only_inside(size, x, y, app_id, clear, g_address, result, _trace):
+        return (g_address != 0 and result == g_address and _trace[0] == ("scp", x, y, 0, 28, app_id * 256, size, 0)
+                and implies(not clear, len(_trace) == 1)
+                and implies(clear, len(_trace) == 2 and _trace[1] == ("fill", g_address, 0, size, x, y, 0)))
+
+
+@contract("rig/machine_control/machine_controller.py::MachineController.sdram_free")
+class SdramFree:
+    """freeing a block sends one free-by-pointer request, with exactly that pointer, to the monitor of exactly the chip named"""
+    properties = ("C13",)
+    params = dict(self=_TRec13("MachineController"), ptr=_TInt13(0, 2 ** 32 - 1), x=_TInt13(0, 255), y=_TInt13(0, 255), g_address=_TInt13(0, 0))
+    externals = {"MachineController._send_scp": _alloc_scp}
+    options = {"decorators": {"use_contextual_arguments": "identity"}, "int_class": "rig/machine_control/consts.py::SCPCommands"}
+    assumptions = ["use_contextual_arguments as the identity (C18); _send_scp (MCSendScp) is recorded"]
+
+    def native(x):
+        raise __import__("pyvc.replay", fromlist=["OutsideHarness"]).OutsideHarness()
+
+    def ensures_this_pointer_on_this_chip(ptr, x, y, _trace):
+        return len(_trace) == 1 and _trace[0] == ("scp", x, y, 0, 28, 1, ptr)
